@@ -167,6 +167,11 @@ type Case struct {
 	CTime         time.Duration `json:"ctime_off"` // offset from T0, microsecond resolution
 	SeqNum        int64         `json:"seq"`
 	// presentation
+	// RawETP / RawAuth, when set, are sealed in place of the encoded EncTicketPart / Authenticator (C04: arbitrary
+	// plaintexts under genuine keys)
+	RawETP  []byte `json:"-"`
+	RawAuth []byte `json:"-"`
+
 	NowNudge time.Duration `json:"now_nudge"` // virtual now = T0 + NowNudge
 	Twice    bool          `json:"twice"`     // present twice; the verdict of interest is the second
 }
@@ -208,6 +213,7 @@ type Minted struct {
 	AuthCT     []byte
 	SessionKey []byte
 	EndTime    time.Time
+	ETP, Auth  []byte // the plaintexts (before any Raw override)
 }
 
 func (w *World) ticketKey(c Case) []byte {
@@ -250,7 +256,12 @@ func (w *World) Mint(c Case) (Minted, error) {
 	if c.RenewTill != nil {
 		etp.RenewTill = krbmsg.Tm(T0.Add(*c.RenewTill))
 	}
-	tct, err := rcrypto.EncryptWithConfounder(c.Etype, w.ticketKey(c), c.TktUsage, w.conf(c.Etype), etp.Encode())
+	etpBytes := etp.Encode()
+	m.ETP = etpBytes
+	if c.RawETP != nil {
+		etpBytes = c.RawETP
+	}
+	tct, err := rcrypto.EncryptWithConfounder(c.Etype, w.ticketKey(c), c.TktUsage, w.conf(c.Etype), etpBytes)
 	if err != nil {
 		return m, err
 	}
@@ -273,7 +284,12 @@ func (w *World) Mint(c Case) (Minted, error) {
 	if c.AuthKeyRandom {
 		akey = w.RandKey(c.Etype)
 	}
-	act, err := rcrypto.EncryptWithConfounder(c.Etype, akey, c.AuthUsage, w.conf(c.Etype), auth.Encode())
+	authBytes := auth.Encode()
+	m.Auth = authBytes
+	if c.RawAuth != nil {
+		authBytes = c.RawAuth
+	}
+	act, err := rcrypto.EncryptWithConfounder(c.Etype, akey, c.AuthUsage, w.conf(c.Etype), authBytes)
 	if err != nil {
 		return m, err
 	}
